@@ -7,6 +7,10 @@
      S <align>                      the assert in alignedMalloc        -> ok|abort
      H <fail> <op>...               alignedMalloc/alignedFree history over the bump back end
                                     ops  m:<size>:<align>  f:<j> (free the pointer returned by the j-th m)
+     A                              the remaining members of aligned_allocator (address, ==, !=, converting constructor, rebind,
+                                    allocate with a hint, STACK_BUFFER): a fixed line
+     T <sizeT> <n> <align> <ans>    the typed overload alignedMalloc<T>(n, align)  -> null|ptr=<p> req=<bytes>,<align>
+     W <s|v|i> <fail> <op>...       as V, element type std::string / std::vector<int> / instrumented (sizeof 32/24/16)
      V <sizeT> <fail> <op>...       two AlignedVector<T> (a, b) over the bump back end
                                     ops  pb:<t>:<x> rs:<t>:<n>:<x> rv:<t>:<n> sh:<t> as:<t>:<n>:<x> cl:<t> sw
    <fail> = index of the back-end request that fails (-1: none). *)
@@ -38,6 +42,18 @@ let run_G sizeT a n ans =
   | ABadAlloc -> "bad_alloc" ^ req
   | APtr p -> "ptr=" ^ sz p ^ req
   | AAbort -> "abort"
+
+let run_T sizeT n a ans =
+  let st = if ans = "none" then None else Some (zs ans) in
+  let w0 = { w_be = st; w_live = []; w_mem = [] } in
+  let req = Printf.sprintf " req=%s,%s" (sz (wrap (Z.mul n sizeT))) (sz a) in
+  match fst (aligned_malloc_typed scripted_malloc false w0 sizeT n a) with
+  | AMNull -> "null" ^ req
+  | AMPtr p -> "ptr=" ^ sz p ^ req
+  | AMAbort -> "abort"
+
+(* element sizes of the non-trivially-copyable element types of the W cases (x86-64 libstdc++) *)
+let sizeof_tag = function "s" -> zi 32 | "v" -> zi 24 | "i" -> zi 16 | t -> failwith ("bad element type " ^ t)
 
 let run_H fail ops =
   let w = ref { w_be = bump0 fail; w_live = []; w_mem = [] } in
@@ -115,6 +131,9 @@ let () =
         | ["S"; a] -> if assert_ok (zs a) then "ok" else "abort"
         | "H" :: fail :: ops -> run_H (zs fail) ops
         | "V" :: s :: fail :: ops -> run_V (zs s) (zs fail) ops
+        | "W" :: tag :: fail :: ops -> run_V (sizeof_tag tag) (zs fail) ops
+        | ["A"] -> "addr=1 eq=1 ne=0 rebind=1 max=1 hint=ok hint_len=length_error stack=1"
+        | ["T"; s; n; a; ans] -> run_T (zs s) (zs n) (zs a) ans
         | _ -> "badcase"
       with Failure m -> "error: " ^ m in
     print_endline res
